@@ -167,7 +167,9 @@ def run(tier="quick", only=None, extra_contracts=None):
         return out
     # long cells first so that the pool finishes early
     cells.sort(key=lambda c: 0 if c["id"].startswith(("K_", "K$2", "K$5", "K$6")) else 1)
-    res = xai.run_cells(info["bc"], cells, config(m, extra_contracts), chunk=1)
+    cfg = config(m, extra_contracts)
+    cfg["maxWallSec"] = 600 if tier == "quick" else 3000      # per cell; a cell that runs out is reported, never silently dropped
+    res = xai.run_cells(info["bc"], cells, cfg, chunk=1)
     if not only:
         try:
             ser = {cid: dict(c, paths=[dict(p, out=[(sorted(s_), pr) for s_, pr in p.get("out", [])]) for p in c["paths"]]) for cid, c in res.items()}
